@@ -22,8 +22,8 @@ namespace NmlVerif.Builder
 
 /-- **An id in use is refused** (the repaired check): whatever else is passed, `add_segment` with an explicit
     `seg_id` that some segment already has does not return normally … -/
-theorem c15_explicit_id_in_use_refused (opt : State → Except Err State) (s : State) (a : AddSeg) (i : Nat)
-    (hi : a.segId = some i) (hin : i ∈ s.ids) : ∀ s', addSegmentWith pickId opt s a ≠ .ok s' := by
+theorem c15_explicit_id_in_use_refused (opt : State → Except Err State) (s : State) (a : AddSeg) (i : Int)
+    (hi : a.segId = some i) (hin : i ∈ s.ids) (hlex : a.lex = false) : ∀ s', addSegmentWith pickId opt s a ≠ .ok s' := by
   intro s' e
   unfold addSegmentWith at e
   split at e
@@ -32,8 +32,11 @@ theorem c15_explicit_id_in_use_refused (opt : State → Except Err State) (s : S
   · cases e
   split at e
   · cases e
+  split at e
+  · cases e
   rename_i id hpick
-  obtain ⟨hnot, hid⟩ := pickId_ok hpick
+  obtain ⟨hnot, hid⟩ := pickId_ok hlex hpick
+  unfold autoId at hid
   rw [hi] at hid
   simp only [Option.getD_some] at hid
   subst hid
@@ -41,8 +44,9 @@ theorem c15_explicit_id_in_use_refused (opt : State → Except Err State) (s : S
 
 /-- … and with a parent given where one is needed and a fraction in [0,1], what it raises is `ValueError`,
     before anything is changed (0 is an id like any other). -/
-theorem c15_explicit_id_in_use_valueError (opt : State → Except Err State) (s : State) (a : AddSeg) (i : Nat)
-    (hi : a.segId = some i) (hin : i ∈ s.ids) (hp : a.parent.isSome) (hf : 0 ≤ a.frac4 ∧ a.frac4 ≤ 4) :
+theorem c15_explicit_id_in_use_valueError (opt : State → Except Err State) (s : State) (a : AddSeg) (i : Int)
+    (hi : a.segId = some i) (hin : i ∈ s.ids) (hp : a.parent.isSome) (hf : 0 ≤ a.frac4 ∧ a.frac4 ≤ 4)
+    (hd : ¬ (a.prox = .badDiam ∨ a.dist = .badDiam)) (hlex : a.lex = false) :
     addSegmentWith pickId opt s a = .error .valueError := by
   unfold addSegmentWith
   have h1 : ¬ (s.segs.length > 0 ∧ a.parent.isNone = true) := by
@@ -50,15 +54,16 @@ theorem c15_explicit_id_in_use_valueError (opt : State → Except Err State) (s 
     | none => rw [hq] at hp; cases hp
     | some q => rw [hq] at h; simp at h
   have h2 : ¬ (a.parent.isSome = true ∧ ¬ (0 ≤ a.frac4 ∧ a.frac4 ≤ 4)) := fun h => h.2 hf
-  simp only [h1, h2, ↓reduceIte]
-  have : pickId s a.segId = .error .valueError := by
-    unfold pickId
-    simp only [hi, Option.getD_some, hin, ↓reduceIte]
+  simp only [hd, h1, h2, ↓reduceIte]
+  have : pickId s a = .error .valueError := by
+    unfold pickId pickCfg autoId
+    simp only [hi, Option.getD_some, hin, hlex, or_true, and_self, ↓reduceIte]
   rw [this]
 
 /-- the same for an automatic id (`len(segments)`) that is already taken because explicit ids were mixed in -/
 theorem c15_automatic_id_in_use_refused (opt : State → Except Err State) (s : State) (a : AddSeg)
-    (hi : a.segId = none) (hin : s.segs.length ∈ s.ids) : ∀ s', addSegmentWith pickId opt s a ≠ .ok s' := by
+    (hi : a.segId = none) (hin : (s.segs.length : Int) ∈ s.ids) (hlex : a.lex = false) :
+    ∀ s', addSegmentWith pickId opt s a ≠ .ok s' := by
   intro s' e
   unfold addSegmentWith at e
   split at e
@@ -67,8 +72,11 @@ theorem c15_automatic_id_in_use_refused (opt : State → Except Err State) (s : 
   · cases e
   split at e
   · cases e
+  split at e
+  · cases e
   rename_i id hpick
-  obtain ⟨hnot, hid⟩ := pickId_ok hpick
+  obtain ⟨hnot, hid⟩ := pickId_ok hlex hpick
+  unfold autoId at hid
   rw [hi] at hid
   simp only [Option.getD_none] at hid
   subst hid
@@ -79,16 +87,16 @@ theorem c15_automatic_id_in_use_refused (opt : State → Except Err State) (s : 
     and each `parent` passed was a segment of the cell at that moment, then segment ids are pairwise different and
     every non-root segment's parent exists.  Needs of `optimise_segment_groups` only that it keeps the segments. -/
 theorem c15_ids_unique_parents_exist (opt : State → Except Err State) (ho : OptSegs opt) (ops : List Op) (s : State)
-    (hok : RunParentsOK opt init ops) (hrun : runWith pickId opt init ops = .ok s) :
+    (hok : RunParentsOK pickId opt init ops) (hrun : runWith pickId opt init ops = .ok s) :
     s.ids.Nodup ∧ ∀ seg ∈ s.segs, ∀ p, seg.parent = some p → p ∈ s.ids :=
-  let h := basic_run ho ops init s basic_init hok hrun
+  let h : Basic s := basic_run (pickSpecP_true pickSpec_pickId) ho ops init s basic_init hok hrun
   ⟨h.idsNodup, h.parents⟩
 
 /-- … and the final reorder + optimise step keeps that -/
 theorem c15_ids_unique_after_finish (opt : State → Except Err State) (ho : OptSegs opt) (ops : List Op) (s s' : State)
-    (hok : RunParentsOK opt init ops) (hrun : runWith pickId opt init ops = .ok s) (hfin : finishWith opt s = .ok s') :
+    (hok : RunParentsOK pickId opt init ops) (hrun : runWith pickId opt init ops = .ok s) (hfin : finishWith opt s = .ok s') :
     s'.ids.Nodup ∧ ∀ seg ∈ s'.segs, ∀ p, seg.parent = some p → p ∈ s'.ids := by
-  have h := basic_run ho ops init s basic_init hok hrun
+  have h : Basic s := basic_run (pickSpecP_true pickSpec_pickId) ho ops init s basic_init hok hrun
   have h' : Basic s' := basic_of_segs h (by unfold finishWith at hfin; rw [ho _ _ hfin]; rfl)
   exact ⟨h'.idsNodup, h'.parents⟩
 
@@ -99,7 +107,7 @@ theorem c15_inv_init : Inv init := inv_init
 
 /-- `Inv s → step s op = ok s' → Inv s'` for every operation (hypotheses of the operation: `OpOK`) -/
 theorem c15_inv_step (opt : State → Except Err State) (ho : OptSpec opt) (s s' : State) (op : Op)
-    (h : Inv s) (hok : OpOK s op) (e : stepWith pickId opt s op = .ok s') : Inv s' := inv_step ho h hok e
+    (h : Inv s) (hok : OpOK s op) (e : stepWith pickId opt s op = .ok s') : Inv s' := inv_step pickSpec_pickId ho h hok e
 
 /-- the model's `optimise_segment_groups` meets the specification the induction needs (both loop variants) -/
 theorem c15_optimise_meets_spec (cfg : Cfg) : OptSpec (optimiseAll cfg) := optSpec_optimiseAll cfg
@@ -127,22 +135,22 @@ def c15_full : Prop :=
     group resolves to exactly the segments added with its type, every group is defined before any group that
     includes it.  For every `opt` meeting `OptSpec`. -/
 theorem c15_partial (opt : State → Except Err State) (ho : OptSpec opt) (ops : List Op) (s s' : State)
-    (hok : RunOK opt init ops) (hrun : runWith pickId opt init ops = .ok s) (hfin : finishWith opt s = .ok s') :
+    (hok : RunOK pickId opt init ops) (hrun : runWith pickId opt init ops = .ok s) (hfin : finishWith opt s = .ok s') :
     Good s' :=
-  good_finish ho (inv_run ho ops init s inv_init hok hrun) hfin
+  good_finish ho (inv_run pickSpec_pickId ho ops init s inv_init hok hrun) hfin
 
 /-- the same for the model as the driver runs it (either variant of `optimise_segment_group`) -/
 theorem c15_partial_model (cfg : Cfg) (ops : List Op) (s s' : State)
-    (hok : RunOK (optimiseAll cfg) init ops) (hrun : run cfg init ops = .ok s) (hfin : finish cfg s = .ok s') :
+    (hok : RunOK pickId (optimiseAll cfg) init ops) (hrun : run cfg init ops = .ok s) (hfin : finish cfg s = .ok s') :
     Good s' :=
   c15_partial (optimiseAll cfg) (optSpec_optimiseAll cfg) ops s s' hok hrun hfin
 
 /-- the resolved-set clauses already hold before the final step (it is needed for the order clause only) -/
 theorem c15_partial_before_finish (opt : State → Except Err State) (ho : OptSpec opt) (ops : List Op) (s : State)
-    (hok : RunOK opt init ops) (hrun : runWith pickId opt init ops = .ok s) :
+    (hok : RunOK pickId opt init ops) (hrun : runWith pickId opt init ops = .ok s) :
     (∃ l, resolve s "all" = .ok l ∧ ∀ i, i ∈ l ↔ i ∈ s.ids) ∧
     (∀ t l, resolve s (SegType.group t) = .ok l → ∀ i, i ∈ l ↔ ∃ seg ∈ s.segs, seg.id = i ∧ seg.stype = some t) := by
-  have h := inv_run ho ops init s inv_init hok hrun
+  have h := inv_run pickSpec_pickId ho ops init s inv_init hok hrun
   -- `good_of_inv` needs the order only for its last field
   have hall : ∃ l, resolve s "all" = .ok l ∧ ∀ i, i ∈ l ↔ i ∈ s.ids := by
     cases e : look s.groups "all" with
@@ -171,7 +179,7 @@ theorem c15_partial_before_finish (opt : State → Except Err State) (ho : OptSp
 
 /-! ## decidable form of the hypotheses (for the examples below) -/
 
-def segOKb (s : State) (parent : Option Nat) (groupId : Option String) (useConv : Bool) (segType : Option String) : Bool :=
+def segOKb (s : State) (parent : Option Int) (groupId : Option String) (useConv : Bool) (segType : Option String) : Bool :=
   useConv &&
   (match parent with | some p => decide (p ∈ s.ids) | none => true) &&
   (match groupId with
@@ -181,13 +189,14 @@ def segOKb (s : State) (parent : Option Nat) (groupId : Option String) (useConv 
 def opOKb (s : State) : Op → Bool
   | .addSegment a => segOKb s a.parent a.groupId a.useConv a.segType
   | .addUnbranched u => segOKb s u.parent u.groupId u.useConv u.segType
+  | .addSegmentLex _ => false
   | _ => true
 
 def runOKb (opt : State → Except Err State) : State → List Op → Bool
   | _, [] => true
   | s, op :: ops => opOKb s op && (match stepWith pickId opt s op with | .ok s' => runOKb opt s' ops | .error _ => true)
 
-theorem segOKb_sound {s : State} {parent : Option Nat} {groupId : Option String} {useConv : Bool} {segType : Option String}
+theorem segOKb_sound {s : State} {parent : Option Int} {groupId : Option String} {useConv : Bool} {segType : Option String}
     (h : segOKb s parent groupId useConv segType = true) :
     useConv = true ∧ (∀ p, parent = some p → p ∈ s.ids) ∧ (∀ g, groupId = some g → isDefaultName g = false) ∧
     (∀ g, groupId = some g → ∀ seg ∈ s.segs, seg.ugroup = some g → seg.stype = parseType segType) := by
@@ -207,9 +216,10 @@ theorem opOKb_sound {s : State} {op : Op} (h : opOKb s op = true) : OpOK s op :=
   cases op with
   | addSegment a => obtain ⟨a1, a2, a3, a4⟩ := segOKb_sound h; exact ⟨a1, a2, a3, a4⟩
   | addUnbranched u => obtain ⟨a1, a2, a3, a4⟩ := segOKb_sound h; exact ⟨a1, a2, a3, a4⟩
+  | addSegmentLex a => cases h
   | _ => trivial
 
-theorem runOKb_sound (opt : State → Except Err State) : ∀ (ops : List Op) (s : State), runOKb opt s ops = true → RunOK opt s ops
+theorem runOKb_sound (opt : State → Except Err State) : ∀ (ops : List Op) (s : State), runOKb opt s ops = true → RunOK pickId opt s ops
   | [], _, _ => trivial
   | op :: ops, s, h => by
     unfold runOKb at h
@@ -223,11 +233,11 @@ theorem runOKb_sound (opt : State → Except Err State) : ∀ (ops : List Op) (s
 /-! ## witnesses and examples -/
 
 /-- shorthand for an `add_segment` call -/
-def seg (g : Option String) (t : String) (p : Option Nat) (sid : Option Nat := none) (ro := true) (op := true) : Op :=
-  .addSegment { hasProx := true, segId := sid, name := none, parent := p, frac4 := 4, groupId := g, useConv := true,
+def seg (g : Option String) (t : String) (p : Option Int) (sid : Option Int := none) (ro := true) (op := true) : Op :=
+  .addSegment { prox := .ok, segId := sid, name := none, parent := p, frac4 := 4, groupId := g, useConv := true,
                 segType := some t, reorder := ro, optimise := op }
 
-def idsOf : Except Err State → Option (List Nat)
+def idsOf : Except Err State → Option (List Int)
   | .ok s => some s.ids
   | .error _ => none
 
@@ -249,15 +259,15 @@ def demoOps : List Op :=
                     segType := some "axon", reorder := false, optimise := false },
    .addMembrane ⟨.spikeThresh, "40mV", "all"⟩]
 
-example : RunOK (optimiseAll shipped) init demoOps := runOKb_sound _ _ _ (by decide)
-example : RunOK (optimiseAll repaired) init demoOps := runOKb_sound _ _ _ (by decide)
+example : RunOK pickId (optimiseAll shipped) init demoOps := runOKb_sound _ _ _ (by decide)
+example : RunOK pickId (optimiseAll repaired) init demoOps := runOKb_sound _ _ _ (by decide)
 /-- … and the history and its final step do return normally (ids 3,7,0,8 and three automatic ones) -/
 example : idsOf (run shipped init demoOps) = some [3, 7, 0, 8, 4, 5, 6] := by decide
 example : (match run shipped init demoOps with | .ok s => (finish shipped s).toBool | .error _ => false) = true := by decide
-example : RunParentsOK (optimiseAll shipped) init demoOps := by
+example : RunParentsOK pickId (optimiseAll shipped) init demoOps := by
   have h := runOKb_sound (optimiseAll shipped) demoOps init (by decide)
   -- `RunOK` implies `RunParentsOK`
-  have key : ∀ (ops : List Op) (s : State), RunOK (optimiseAll shipped) s ops → RunParentsOK (optimiseAll shipped) s ops := by
+  have key : ∀ (ops : List Op) (s : State), RunOK pickId (optimiseAll shipped) s ops → RunParentsOK pickId (optimiseAll shipped) s ops := by
     intro ops
     induction ops with
     | nil => intro _ _; trivial
@@ -267,6 +277,7 @@ example : RunParentsOK (optimiseAll shipped) init demoOps := by
       cases op with
       | addSegment a => exact hs.1.parent
       | addUnbranched u => exact hs.1.parent
+      | addSegmentLex a => exact hs.1
       | _ => trivial
   exact key _ _ h
 /-- `OptSpec` is met by the identity as well (an `optimise` that does nothing) -/
@@ -297,7 +308,7 @@ theorem c15_old_zero_witness :
 
 /-! ### open findings: what the two excluding hypotheses exclude -/
 
-def groupOf (s : State) (g : String) : Option (List Nat) :=
+def groupOf (s : State) (g : String) : Option (List Int) :=
   match resolve s g with
   | .ok l => some (natSort l)
   | .error _ => none
